@@ -34,7 +34,7 @@ def func(tag, cmd, quick, thorough, mismatch, checker, **kw):
 
 SETTLE_ASSUME = ["x/bank: a send fails iff the sender's balance is insufficient and has no other effect; treasury accounts have no key",
                  "baseapp: messages of a transaction run on a branch that is written only if all succeed",
-                 "ERC-721 ownerOf / SBT mint modelled as abstract ledgers; ERC-20 conversion payout path not exercised (no registered pair)"]
+                 "ERC-721 ownerOf / SBT mint modelled as abstract ledgers; ERC-20 conversion payouts (erc20 profile: a registered token pair, treasuries funded by token mints) modelled as a ledger whose treasury side is the token balance and whose recipient side is the coin balance; coin deposits into a token-pair treasury and conversion failures other than a short token balance are not exercised"]
 
 PROPS = {
     'C01': dict(
@@ -42,7 +42,8 @@ PROPS = {
                   'C01_treasury_debit_native', 'C01_treasury_untouched_mint'],
         runs=[chain('settle', 'settlement', 40, 1200, 'check_C01'),
               chain('imported', 'imported', 40, 1200, 'check_C01'),
-              chain('faults', 'faults', 24, 800, 'check_C01')],
+              chain('faults', 'faults', 24, 800, 'check_C01'),
+              chain('erc20', 'erc20', 24, 800, 'check_C01')],
         fields=[3, 5, 15, 16, 20, 21],
         rule=CHAIN_RULE, assumptions=SETTLE_ASSUME),
     'C02': dict(
@@ -65,9 +66,10 @@ PROPS = {
     'C11': dict(
         theorems=['C11_prefix', 'C11_queue_order', 'C11_failure_defers', 'C11_block_completes', 'C11_recovers'],
         runs=[chain('faults', 'faults', 48, 1600, 'check_C11'),
-              chain('imported', 'imported', 40, 1200, 'check_C11')],
+              chain('imported', 'imported', 40, 1200, 'check_C11'),
+              chain('erc20', 'erc20', 32, 1000, 'check_C11')],
         fields=[3, 5, 16, 21],
-        rule=CHAIN_RULE + "; fault plans fail the k-th payout back-end call (bank send / SBT mint) of an end-block",
+        rule=CHAIN_RULE + "; fault plans fail the k-th payout back-end call (bank send / SBT mint) of an end-block; the erc20 profile pays token-pair tenants through x/erc20 ConvertERC20 with treasuries that run short of tokens and are topped up by mints",
         assumptions=SETTLE_ASSUME),
     'C12': dict(
         theorems=['C12_duplicate_rejected', 'C12_lookup_exact', 'C12_one_per_request', 'C12_invariant_reachable',
